@@ -382,6 +382,17 @@ func Run(c *vk.Ctx) {
 			c.Finish()
 			return
 		}
+		var mv MVCase
+		c.LoadReplay(&mv)
+		if mv.MethodValue {
+			f := runMethodValue(mv)
+			fmt.Printf("replay method value %+v\nresult: %s\n", mv, f)
+			if f != "" {
+				c.Violate("replay", f, mv)
+			}
+			c.Finish()
+			return
+		}
 		var rc RetargetCase
 		c.LoadReplay(&rc)
 		if rc.Retarget {
